@@ -137,6 +137,23 @@ func c12(c *Ctx) {
 			c.MustFact(m.Instr, "odd-stream-id", Cmp(BinOpV(token.REM, AnyV, ConstInt(2)), token.EQL, ConstInt(1)))
 		}
 		c.Expect(ls[handle][mmu], handle, oh, "handle-under-maxStreamMu", "hand-off happens outside maxStreamMu (GOAWAY last-stream-id could miss it)")
+		// every legal, non-truncated HEADERS advances the high-water mark, also when the
+		// request is then refused: otherwise a later stream could reuse a lower or equal id
+		fTrunc := c.field(h2, "MetaHeadersFrame", "Truncated")
+		isMaxStore := func(in ssa.Instruction) bool {
+			st, ok := in.(*ssa.Store)
+			return ok && FieldAddrOf(fMaxID)(st.Addr)
+		}
+		isNilReturn := func(in ssa.Instruction) bool {
+			r, ok := in.(*ssa.Return)
+			return ok && r.Block() != oh.Recover && !provablyNonNil(r.Results[0], r, 0)
+		}
+		q := pathQuery{Fn: oh, AtEntry: true, Barrier: isMaxStore, Target: isNilReturn,
+			EdgeBlock: func(from, to *ssa.BasicBlock) bool {
+				_, ok := hasFact(edgeFacts(from, to), Truth(FieldLoad(fTrunc), true))
+				return ok
+			}}
+		c.MustPass("id-recorded-before-any-refusal", q, nil)
 	})
 	c.Ob("illegal-id-is-connection-error", "R7", "an illegal stream id makes header processing return a non-nil error (the reader turns it into GOAWAY PROTOCOL_ERROR)", 1, func() {
 		fMaxID := c.field(tr, "http2Server", "maxStreamID")
